@@ -18,7 +18,7 @@ from simkit.ddmin import ddmin_list, greedy_replace
 from simkit.eventlog import EventLog, digest_of
 from simkit.snapshot import token_core, doc_snapshot, errors_snapshot
 
-UNLEXABLE = ['€', '§', 'ß', 'µ', '¿', '\x01', '\xa0', '٤', '８', '²']          # the last three are digits only to str.isdigit()/\\d, not to the lexer
+UNLEXABLE = ['€', '§', 'ß', 'µ', '¿', '\x01', '\xa0', '٤', '８', '²', '\u0301', '\u212b', '\u2126', '\u0308']          # the last three are digits only to str.isdigit()/\\d, not to the lexer
 TRUNCATED = ['4', '8.', '16%', '*clef', '*M', '*M4/', '*k[f#', '*met(c', '*MM', '*xywh-1:1,2', '*>[A', '*staff', '*tb', '*rscale:']
 LEADING = ['#4c', '4#c', 'q', 'L', '4L', ';']
 BAD_CHORD = ['4c 4', '4c  4e', '4c 4€e']
@@ -139,7 +139,7 @@ class C12:
                    'null-row suppression of the exporter is recomputed from the abstract document (rows whose exported cells are all . or *)']
     PROBES = ['fault_after_split', 'fault_in_subspine', 'fault_after_join', 'adjacent_faults', 'fault_in_non_kern', 'fault_in_last_row',
               'fault_in_bar_row', 'fault_in_interp_row', 'two_imports_one_process', 'history_err_then_valid', 'blank_line_before_fault',
-              'fault_in_second_kern_spine', 'later_kern_cell_after_fault', 'dropped_row_resurrected', 'leading_blank_line']
+              'fault_in_second_kern_spine', 'later_kern_cell_after_fault', 'dropped_row_resurrected', 'leading_blank_line', 'interrupt_delivered', 'same_malformed_text_twice_in_a_row']
 
     # ---------------------------------------------------------------- plan
     def gen_plan(self, seed, index, tier):
@@ -184,6 +184,11 @@ class C12:
                         break
                     continue
                 text, kind, fam = malformed_for(frng, c.text)
+                same_row = [f for (fr, fc), f in chosen.items() if fr == ri]
+                if same_row and frng.random() < 0.45:
+                    # the SAME malformed text twice in one row (two spines): still one error per cell
+                    dup = frng.choice(same_row)
+                    text, kind, fam = dup['text'], dup['kind'], dup['family']
                 chosen[(ri, ci)] = {'row': ri, 'col': ci, 'text': text, 'kind': kind, 'family': fam}
             faults = [chosen[k2] for k2 in sorted(chosen)]
             if erng.random() < 0.12:
@@ -207,6 +212,11 @@ class C12:
                 carrier = rng.choice(VALID_KERN_TOKENS)
                 text, kind, fam = malformed_for(frng, carrier)
                 toks.append({'t': text, 'bad': True, 'kind': kind, 'family': fam})
+                if frng.random() < 0.35:
+                    # the import of this token is cut short at a seeded line event (Ctrl-C, failing allocation); the caller survives it
+                    toks[-1]['interrupt'] = {'k_u': frng.randrange(1 << 30), 'payload': frng.choice(['SimInterrupt', 'SimInterrupt', 'MemoryError'])}
+            elif not fault_free and frng.random() < 0.06:
+                toks.append({'t': rng.choice(valid_pool), 'bad': False, 'interrupt': {'k_u': frng.randrange(1 << 30), 'payload': frng.choice(['SimInterrupt', 'MemoryError'])}})
             else:
                 toks.append({'t': rng.choice(valid_pool), 'bad': False})
         order2 = list(range(n))
@@ -345,6 +355,8 @@ class C12:
                 bump(probes, 'fault_in_subspine')
             if (ri, ci + 1) in fset:
                 bump(probes, 'adjacent_faults')
+            if sum(1 for g in faults if g['row'] == ri and g['text'] == f['text']) > 1:
+                bump(probes, 'same_malformed_text_twice_in_a_row')
             if hdr not in KERN_PARSED:
                 bump(probes, 'fault_in_non_kern')
             if ri + 1 < len(rows) and rows[ri + 1].kind == 'term':
@@ -629,6 +641,19 @@ class C12:
             raised_before = False
             for pos, i in enumerate(order):
                 t = toks[i]['t']
+                if oi == 0 and 'interrupt' in toks[i]:
+                    from simkit import interrupt as intr
+                    from simkit.runner import kernpy_src
+                    inj = intr.injector(kernpy_src())
+                    total = inj.count_events(lambda: outcome(createImporter(header), t))
+                    if total > 0:
+                        delivered, out = inj.run(lambda: imp.import_token(t), 1 + toks[i]['interrupt']['k_u'] % total, toks[i]['interrupt']['payload'])
+                        log.emit('fault', 'interrupt-import_token', [t, toks[i]['interrupt']['payload']], None)
+                        faults_fired['interrupt_' + toks[i]['interrupt']['payload']] = faults_fired.get('interrupt_' + toks[i]['interrupt']['payload'], 0) + 1
+                        if delivered:
+                            probes['interrupt_delivered'] = probes.get('interrupt_delivered', 0) + 1
+                            raised_before = True       # whatever it left behind, later tokens must not see it
+                        continue
                 got = outcome(imp, t)
                 log.emit('client', f'import_token[{oi}]', t, got)
                 if got != fresh[t]:
@@ -649,7 +674,7 @@ class C12:
         shape = digest_of([header, [bool(t.get('bad')) for t in toks]])
         nontrivial = probes.get('history_err_then_valid', 0) > 0
         return {'digest': log.digest(), 'events': log.seq, 'faults': faults_fired, 'probes': probes, 'shape': shape,
-                'nontrivial': nontrivial, 'config': plan['config'], 'violations': viol, 'extra': {}}
+                'nontrivial': nontrivial, 'config': plan['config'], 'hash_sensitive': any('interrupt' in t for t in toks), 'violations': viol, 'extra': {}}
 
     def _result(self, plan, log, viol, faults_fired, probes, doc, nontrivial):
         placement = sorted((f['kind'], doc.rows[f['row']].kind) for f in plan['faults'])
